@@ -54,12 +54,12 @@ type c18Scenario struct {
 
 // commodity shapes of transaction 2: list of (amount commodity, cost commodity, assertion commodity) per posting
 var c18CommShapes = [][][3]string{
-	{{"EUR", "", ""}, {"EUR", "", ""}},                    // declared only
-	{{"USD", "", ""}, {"USD", "", ""}},                    // undeclared twice -> one warning
-	{{"EUR", "USD", ""}, {"USD", "", ""}},                 // undeclared first in cost position
-	{{"EUR", "", "CHF"}, {"EUR", "", ""}},                 // undeclared in assertion position
-	{{"USD", "CHF", ""}, {"EUR", "", "CHF"}},              // two undeclared symbols
-	{{"EUR", "", ""}, {"", "", ""}},                       // amount-less second posting
+	{{"EUR", "", ""}, {"EUR", "", ""}},                        // declared only
+	{{"USD", "", ""}, {"USD", "", ""}},                        // undeclared twice -> one warning
+	{{"EUR", "USD", ""}, {"USD", "", ""}},                     // undeclared first in cost position
+	{{"EUR", "", "CHF"}, {"EUR", "", ""}},                     // undeclared in assertion position
+	{{"USD", "CHF", ""}, {"EUR", "", "CHF"}},                  // two undeclared symbols
+	{{"EUR", "", ""}, {"", "", ""}},                           // amount-less second posting
 	{{"USD", "EUR", "USD"}, {"CHF", "", ""}, {"EUR", "", ""}}, // three postings
 }
 
